@@ -197,7 +197,11 @@ class QuadratureRule(object):
         except ValueError:
             return epsilon
         D3 = -prec
-        D4 = min(0, max(D1**2/D2, 2*D1, D3))
+        if D2 == 0:
+            # |I_k - I_{k-2}| is exactly 1: the extrapolation D1**2/D2 is undefined
+            D4 = min(0, max(2*D1, D3))
+        else:
+            D4 = min(0, max(D1**2/D2, 2*D1, D3))
         return self.ctx.mpf(10) ** int(D4)
 
     def summation(self, f, points, prec, epsilon, max_degree, verbose=False):
